@@ -9,6 +9,7 @@ import (
 	"sort"
 	"strconv"
 	"strings"
+	"sync"
 	"testing"
 	"testing/synctest"
 	"time"
@@ -51,10 +52,14 @@ type Result struct {
 	Violations  []*Violation   `json:"violations,omitempty"` // one per distinct (class,key) of this run
 	Scenario    *Scenario      `json:"scenario,omitempty"`   // attached when there are violations
 	Panic       string         `json:"panic,omitempty"`    // harness/machinery failure (exit 2), not a violation
+
+	mu sync.Mutex // the recording helpers may be called from tasks woken at the same simulated instant
 }
 
 func (r *Result) Fault(k string)       { r.FaultN(k, 1) }
 func (r *Result) FaultN(k string, n int) {
+	r.mu.Lock()
+	defer r.mu.Unlock()
 	if r.Faults == nil {
 		r.Faults = map[string]int{}
 	}
@@ -62,6 +67,8 @@ func (r *Result) FaultN(k string, n int) {
 }
 func (r *Result) Probe(k string) { r.ProbeN(k, 1) }
 func (r *Result) ProbeN(k string, n int) {
+	r.mu.Lock()
+	defer r.mu.Unlock()
 	if r.Probes == nil {
 		r.Probes = map[string]int{}
 	}
@@ -70,6 +77,8 @@ func (r *Result) ProbeN(k string, n int) {
 // Violate records a violation unless one with the same (class,key) was already recorded in this
 // run; it returns the new record (to attach Pinned) or nil.
 func (r *Result) Violate(class, key string, step int, format string, a ...any) *Violation {
+	r.mu.Lock()
+	defer r.mu.Unlock()
 	for _, v := range r.Violations {
 		if v.Class == class && v.Key == key {
 			return nil
